@@ -68,7 +68,7 @@ SPACE = ("bounded: arrays of <=4 terms, <=3 indeterminates, exponents<=3, 8 shap
 
 
 # ------------------------------------------------------------------ lead_exponent / lead_coefficient
-@check("C19", "lead.exponent_and_coefficient", gen_flagged(120, 1200),
+@check("C19", "lead.exponent_and_coefficient", gen_flagged(150, 4000),
        functions=("numpoly.lead_exponent", "numpoly.lead_coefficient", "numpoly.glexsort"),
        note=SPACE + "; all four (graded, reverse) settings")
 def lead_terms(inp):
@@ -96,7 +96,7 @@ def lead_terms(inp):
 
 
 # ------------------------------------------------------------------ isconstant / tonumpy / todict
-@check("C19", "isconstant_tonumpy.exact", gen_plain(250, 2500), functions=("numpoly.isconstant", "numpoly.tonumpy", "numpoly.ndpoly.isconstant",
+@check("C19", "isconstant_tonumpy.exact", gen_plain(300, 8000), functions=("numpoly.isconstant", "numpoly.tonumpy", "numpoly.ndpoly.isconstant",
                                                                             "numpoly.ndpoly.tonumpy"),
        note=SPACE + "; tonumpy must raise for a non-constant array and return the constant terms otherwise")
 def isconstant_tonumpy(inp):
@@ -124,7 +124,7 @@ def isconstant_tonumpy(inp):
     return None
 
 
-@check("C19", "todict.exact", gen_plain(150, 1500), functions=("numpoly.ndpoly.todict",),
+@check("C19", "todict.exact", gen_plain(200, 5000), functions=("numpoly.ndpoly.todict",),
        note=SPACE + "; the dict's exponent keys with their coefficient arrays sum to the array")
 def todict_exact(inp):
     install_poison()
@@ -147,7 +147,7 @@ def todict_exact(inp):
 
 
 # ------------------------------------------------------------------ decompose
-@check("C19", "decompose.slices", gen_plain(150, 1500), functions=("numpoly.decompose", "numpoly.concatenate", "numpoly.polynomial_from_attributes"),
+@check("C19", "decompose.slices", gen_plain(150, 4000), functions=("numpoly.decompose", "numpoly.concatenate", "numpoly.polynomial_from_attributes"),
        note=SPACE + "; result has shape (k,)+shape, every slice holds at most one monomial, slices sum to the input")
 def decompose_slices(inp):
     import numpoly
@@ -177,7 +177,7 @@ def decompose_slices(inp):
 
 # ------------------------------------------------------------------ set_dimensions
 def gen_setdim(tier, rng):
-    for _ in range(count(tier, 60, 500)):
+    for _ in range(count(tier, 80, 1500)):
         s = rand_spec(rng)
         for dims in [None, 1, 2, 3, 4, 5]:
             yield {"p": s, "dimensions": dims}
@@ -230,7 +230,7 @@ def proxy_verdict(proxy, keys, shape, what):
     return None
 
 
-@check("C19", "sortable_proxy.order", gen_flagged(150, 1500), functions=("numpoly.sortable_proxy", "numpoly.lead_exponent", "numpoly.glexsort"),
+@check("C19", "sortable_proxy.order", gen_flagged(200, 5000), functions=("numpoly.sortable_proxy", "numpoly.lead_exponent", "numpoly.glexsort"),
        note=SPACE + "; all four (graded, reverse) settings; required: a permutation of 0..size-1 with proxy[i] < proxy[j] whenever "
             "(leading exponent, leading coefficient) of i is strictly smaller than that of j; elements with equal leading terms may "
             "get either order")
@@ -245,7 +245,7 @@ def proxy_order(inp):
 
 
 def gen_numeric(tier, rng):
-    for _ in range(count(tier, 150, 1500)):
+    for _ in range(count(tier, 300, 6000)):
         shape = tuple(rng.choice(SHAPES + [(7,), (3, 3), (12,)]))
         pool = rng.choice([[0, 1], [-1, 0, 1, 2], [-2.5, -1.0, 0.0, 0.5, 2.0, 3.0], list(range(-4, 5))])
         dtype = "float64" if isinstance(pool[0], float) else rng.choice(["int64", "float64"])
@@ -278,7 +278,7 @@ def proxy_constants(inp):
 
 # ------------------------------------------------------------------ argmax / argmin / amax / amin without axis
 def gen_extreme(tier, rng):
-    for _ in range(count(tier, 100, 1000)):
+    for _ in range(count(tier, 120, 3000)):
         s = rand_spec(rng, shapes=[s for s in SHAPES if s])
         for g, r in FLAGS:
             yield {"p": s, "graded": g, "reverse": r, "which": rng.choice(["max", "min"]), "via": rng.choice(["numpoly", "numpy", "method"])}
